@@ -192,6 +192,12 @@ func Damages07(log, idx []byte, ver int, l Layout, recs []refcodec.Rec) []Damage
 		// a valid record of a later offset glued after garbage must not resurrect
 		ds = append(ds, Damage{Desc: "log + 5 zero bytes + a valid record", Log: append(append(cloneb(log), make([]byte, 5)...), refcodec.Encode(2, 99, 5, []byte("k"), []byte("v"))...)})
 	}
+	// every log damage again with the index file missing at the same time
+	for _, d := range append([]Damage(nil), ds...) {
+		if d.Log != nil {
+			ds = append(ds, Damage{Desc: d.Desc + " + index missing", Log: d.Log, NoIdx: true})
+		}
+	}
 	// index damage, log intact
 	ds = append(ds, Damage{Desc: "index missing", NoIdx: true})
 	for L := 0; L < len(idx); L++ {
